@@ -73,6 +73,8 @@ def scenario(out, shape, sched, fmt=FMT):
         # library's process-wide utmp stream
         fmt = b"%{ipaddr}|%{tty_username}|" + fmt
     oval = {"file": b"file:" + out.encode() + b"/log", "stdout": b"stdout", "stderr": b"stderr", "socket": b"socket:" + out.encode() + b"/sock"}[okind]
+    if len(shape) > 4 and shape[4] == "nosink":
+        oval = b"socket:" + out.encode() + b"/nobody-listens-here"        # every connect() fails: the error path of the socket-type outputs
     opts = [(b"output", oval), (b"message_format", fmt)]
     if chain:
         opts.append((b"filter_chain", chain))
@@ -142,6 +144,18 @@ def run_sched(d, shape, sched, tsan=False):
     if not res.clean or not Z:
         raise Failure("process crashed (%s)" % what, {"result": res.describe(), "sanitizer": [r[:1500] for r in reports[:1]]}, key="crash")
     trace = Z[0].f[0].decode()
+    # descriptor discipline, from the executed trace: no thread ever makes more descriptor-closing calls than it made descriptor-creating
+    # ones before (a repeated close() is harmless alone, but closes whatever another thread opened in between)
+    bal = {}
+    for i in range(0, len(trace) - 1, 2):
+        t, k = trace[i], trace[i + 1]
+        if k == "O":
+            bal[t] = bal.get(t, 0) + 1
+        elif k == "C":
+            bal[t] = bal.get(t, 0) - 1
+            if bal[t] < 0:
+                raise Failure("thread %s makes a descriptor-closing call without a descriptor of its own left to close (repeated close) (%s)" % (t, what),
+                              {"trace_up_to_there": trace[max(0, i - 60):i + 2]}, key="double-close")
     Ps = res.of("P")
     if len(Ps) == 2 and Ps[0].f[0] != Ps[1].f[0]:
         # process-wide state (umask 0002, descriptors, signal dispositions, cwd, environment) after all calls returned
@@ -161,6 +175,10 @@ def run_sched(d, shape, sched, tsan=False):
         lines = content.split(b"\n")[:-1]
         if content and not content.endswith(b"\n"):
             lines.append(content.split(b"\n")[-1])
+    if len(shape) > 4 and shape[4] == "nosink":
+        if lines:
+            raise Failure("record delivered although nobody listens at the configured socket (%s)" % what, {"records": [l[:120] for l in lines[:4]]}, key="chain")
+        return trace, int(Z[0].f[1])
     if chaink == "droplast":
         # every call is dropped by the last filter of the chain: nothing at all may be logged
         if lines:
@@ -413,7 +431,7 @@ def main():
     # other outputs and filter chains (every libc call the library makes is a scheduling point as well)
     shapes += [(2, 1, "stdout", "none"), (2, 1, "socket", "pass"), (2, 1, "file", "droplast"), (2, 1, "stderr", "droplast"), (2, 1, "file", "mixed"),
                (2, 1, "socket", "none", "big0"), (2, 1, "file", "none", "errfmt"), (2, 1, "file", "none", "errlog"), (2, 2, "file", "none", "nullargv"),
-               (2, 1, "file", "none", "utmp")]
+               (2, 1, "file", "none", "utmp"), (2, 1, "socket", "none", "nosink")]
     if not ctx.quick:
         shapes += [(3, 1, "stdout", "pass"), (2, 2, "file", "droplast"), (2, 2, "socket", "none"), (3, 1, "stderr", "none")]
     for shape in shapes:
